@@ -7,6 +7,8 @@ LEVEL = "model_checking"
 WITNESSES = ["runoff_day", "deep_perc_day", "capillary_rise_day", "gwin_day", "ponded_day", "bund_removal_day",
              "pre_irrigation_day", "season_reset", "irrigation_day", "transpiration_day"]
 
+NONTRIVIAL = ['runoff_day', 'capillary_rise_day', 'gwin_day', 'ponded_day', 'bund_removal_day', 'pre_irrigation_day', 'season_reset']
+
 
 def scenarios(tier, seed=0):
     yield from W.water_scenarios(tier)
